@@ -204,12 +204,18 @@ class Source(object):
         site = _callsite()
         pop = tuple(_freeze(x) for x in seq)
         if self.fold and len(self.tape) >= 3:
-            t3, t2, t1 = self.tape[-3], self.tape[-2], self.tape[-1]
-            rejected = (t1[0] == "cmp" and t1[2] == 1) or (t1[0] == "cmpdet" and t1[2] is False)
-            if t3[0] == "choice" and t2[0] == "random" and rejected:
-                b = self.branches[t3[3]]
-                if b["site"] == site and b["pop"] == pop:
-                    raise LoopBack(t3[3])
+            # rejection sampling: the same choice at the same call site from the same population, separated from the
+            # previous one by exactly one rejected comparison of a uniform draw - in whichever order the proposal and
+            # the acceptance level are drawn (choice, random, reject | random, choice, reject -> choice, reject, random)
+            last = self.tape[-3:]
+            if last[0][0] == "choice":
+                rest = last[1:]
+                nrej = sum(1 for t in rest if (t[0] == "cmp" and t[2] == 1) or (t[0] == "cmpdet" and t[2] is False))
+                nrnd = sum(1 for t in rest if t[0] == "random")
+                if nrej == 1 and nrnd == 1:
+                    b = self.branches[last[0][3]]
+                    if b["site"] == site and b["pop"] == pop:
+                        raise LoopBack(last[0][3])
         k = self._branch("choice", [1.0 / n] * n, {"n": n}, site, pop)
         return seq[k]
 
